@@ -190,6 +190,16 @@ class NPProxy:
         return _elemwise("sign", np.sign)(x, *a, **k)
 
     @staticmethod
+    def asarray(x, dtype=None, **k):
+        if is_sym(x):
+            a = np.empty((), dtype=object)
+            a[()] = x
+            return a.view(sc.SymArr)
+        if _isobj(x):
+            return x
+        return np.asarray(x, dtype=dtype, **k)
+
+    @staticmethod
     def isscalar(x):
         return is_sym(x) or np.isscalar(x)
 
